@@ -155,6 +155,7 @@ func ProjDocs() []interface{} {
 		`{"a":[true,false,null,0,"",[],{}]}`, `{"a":[{"a":true},{"a":false},{"a":""},{"a":"x"},{"a":[]},{"a":[0]}]}`,
 		`{"a":{"b":[{"c":[1,2]},{"c":[3]}]},"b":[{"a":1}]}`,
 		`[{"a":{"x":1,"y":null}},{"a":{"x":2}}]`,
+		`{"a":[1,null,2],"b":[null,1]}`, `[1,null,2,null,3]`, `{"a":[null,"x",null],"b":"x"}`,
 	}
 	out := make([]interface{}, len(texts))
 	for i, t := range texts {
